@@ -243,4 +243,19 @@ theorem quoted_test (g : List Char) :
     · have hzb : (z == '"') = false := by simpa using hz
       simp [hz, hzb]
 
+/-! ### `s[:-k]`, `s[0]`, `str(n)` -/
+
+theorem slice_none_neg (s : List α) (k : Nat) (hk : 0 < k) :
+    slice s none (some (-(k : Int))) = s.take (s.length - k) := by
+  unfold slice clamp
+  have h1 : (-(k : Int)) < 0 := by omega
+  have h2 : (-(k : Int) + (s.length : Int)).toNat = s.length - k := by omega
+  simp [h1, h2, hk]
+
+theorem getItemStr_zero_cons (x : α) (t : List α) : getItemStr (x :: t) 0 = .ok [x] := by
+  simp [getItemStr, getItem]
+
+theorem strOfInt_nat (p : Nat) : strOfInt (p : Int) = (toString p).toList := rfl
+
+
 end Wz.Pre
